@@ -349,12 +349,31 @@ FNUNITS = [
                        "hdf_xdr_setpos": "param:setpos_ret", "H4_hdf_xdr_setpos": "param:setpos_ret", "NCfillrecord": "param:fillrec_ret",
                        "xdr_numrecs": "param:xdr_numrecs_ret", "H4_xdr_numrecs": "param:xdr_numrecs_ret"},
       "assume_ptr_calls": {"NC_findattr": "fillattr_null", "H4_NC_findattr": "fillattr_null"}}),
+    # C12 / C20 / C02: the reference-number allocator and the DD-block codec of hfiledd.c.
+    #   Hnewref / Htagnewref: `file_rec` (the result of HIfid2rec = HAatom_group / HAatom_object) and the tag-tree node found by tbbtdfind are
+    #   OBJECTS outside the function (entry fields, `_null` = not found); HTIfind_dd is answered from a table indexed by the ref looked for;
+    #   Htagnewref calls the translated bv_find_next_zero of unit Bitvect2.
+    #   HTPsync_ddlist / HTPstart_ddlist: FRAGMENTS (the loops that serialise / parse the dd_t records of one block, with the HP_write / HP_read of
+    #   the block's bytes); `list` / `curr_dd_ptr` are cursors over the array of structs block->ddlist; HTIregister_tag_ref is answered from a
+    #   table indexed by the position of the descriptor; the back pointer dd->blk is outside the modelled state.
+    ("Hfiledd", "hdf/src/hfiledd.c", ["Hnewref", "Htagnewref", "HTPsync_ddlist", "HTPstart_ddlist"],
+     {"ignore_calls": ["HEclear", "HEPclear", "HEpush"], "object_calls": ["HAatom_group", "HAatom_object", "tbbtdfind"],
+      "twos_complement_bitops": True, "wrap_int_conv": True,
+      "assume_calls": {"HTIfind_dd": "table:3", "HTIregister_tag_ref": "table:2"}, "use_units": ["Bitvect2"],
+      "io": {"HP_read": "read", "HP_write": "write"}, "io_args": {"HP_read": [3, 2], "HP_write": [3, 2]},
+      "ignore_members": ["blk"],
+      "fragments": {"HTPsync_ddlist": {"of": "HTPsync", "from": "list = &block->ddlist[0]", "to": "if (HP_write(file_rec, tbuf"},
+                    "HTPstart_ddlist": {"of": "HTPstart", "from": "curr_dd_ptr = ddcurr->ddlist", "to": "for (i = 0"}}}),
 ]
 
 
 def gen_fnunits(files):
     import c2lean
+    specs = {u: [c, f, o] for u, c, f, o in FNUNITS}
     for unit, cfile, fns, opts in FNUNITS:
+        if isinstance(opts.get("use_units"), list):
+            # units whose translated functions this one calls: the translator needs their definition to learn the callees' parameters
+            opts = dict(opts, use_units={u: specs[u] for u in opts["use_units"]})
         try:
             txt, _ = c2lean.translate_unit(repo, bdir, unit, cfile, fns, opts)
         except c2lean.Unsupported as e:
